@@ -1,0 +1,14 @@
+//go:build verif
+
+package db
+
+// verif hook H2: observation / fault-injection point in front of every
+// physical write of the shared LevelDB instance. VerifOnWrite is nil unless a
+// verification harness installs it.
+var VerifOnWrite func(op string, key []byte, size int)
+
+func verifOnWrite(op string, key []byte, size int) {
+	if f := VerifOnWrite; f != nil {
+		f(op, key, size)
+	}
+}
